@@ -826,9 +826,12 @@ class Explorer:
                                 if pb == fr.prev: new[i.id] = self.val(st, fr, v)
                         fr.regs.update(new)
                         if st.mon is not None: st.mon.advance(self, st)
-                        k = self.key(st)
-                        if k in seen: break
-                        seen.add(k); self.nstates += 1
+                        if self.exact:
+                            self.nstates += 1        # bounded inputs: every run ends by itself, no merging needed (and no abstraction of the tape)
+                        else:
+                            k = self.key(st)
+                            if k in seen: break
+                            seen.add(k); self.nstates += 1
                         if self.nstates > self.max_states: raise Imprecise('abstract state budget exceeded (%d)' % self.max_states)
                         if self.nstates % 64 == 0:
                             import time
